@@ -26,6 +26,12 @@ def main():
             # demo files
             demo = m.get("demo_file", "")
             demos = [d.strip() for d in demo.replace(",", " ").split() if d.strip().endswith(".go")]
+            # shared helper files written by the agent (seeded_helpers_test.go, or the other variant's file when it holds helpers)
+            import glob
+            for g in glob.glob(src + "/seeded_*_test.go") + glob.glob(src + "/log/seeded_*_test.go"):
+                rel = os.path.relpath(g, src)
+                if rel not in demos:
+                    demos.append(rel)
             for d in demos:
                 os.makedirs(os.path.dirname(os.path.join(work, d)) or work, exist_ok=True)
                 shutil.copy(os.path.join(src, d), os.path.join(work, d))
